@@ -394,7 +394,10 @@ func (p *Program) frozenViolations() map[string][]string {
 			return rootGlobal(x.X, depth+1)
 		case *ssa.UnOp:
 			// an address inside a slice (or behind a pointer) that is stored in the table
-			if x.Op == token.MUL {
+			// (only slices: the elements behind a slice header kept in the table are table
+			// content; the object behind a pointer kept in a global - e.g. a *regexp.Regexp - is
+			// not)
+			if _, isSlice := x.Type().Underlying().(*types.Slice); isSlice && x.Op == token.MUL {
 				return rootGlobal(x.X, depth+1)
 			}
 		case *ssa.Slice:
